@@ -130,6 +130,13 @@ def provenance_ok(s, result):
                 return True
         except ValueError:
             pass
+        # an input given without scheme is joined as the http URL it stands for (the scheme is not part of the answer then)
+        try:
+            j = _std_urljoin("http://" + s, dec)
+            if result == j or (j.startswith("http://") and result == j[7:]):
+                return True
+        except ValueError:
+            pass
     if undecidable:
         return None
     return False
